@@ -378,7 +378,7 @@ def _classify_value(desc, exp, obs):
         return "value-differs"
     oa = oa[0]
     for n in range(len(seq) - 1, -1, -1):
-        progs = build(fam, seq[:n], "root" if desc.get("placement") == "chain" else desc.get("placement", "root"))
+        progs = build(fam, seq[:n], "dotted" if desc.get("placement") == "chain" else desc.get("placement", "root"))
         if progs is None:
             continue
         try:
